@@ -12,7 +12,6 @@ theorem not_selected_no_effect (a : Args) (srcSub : List Snap) (srcRel dstFinal 
   refine ⟨s, ?_, rfl, rfl⟩
   unfold copyEntry
   simp only [h, Bool.not_false, if_true]
-  rfl
 
 /-- the copied source itself (relative path "") is always selected -/
 theorem root_always_selected (a : Args) : included a [] = true := by
